@@ -183,6 +183,7 @@ class RefWorld:
         self.diff_info = None
         self.or_fields_used = False
         self.converted = set()
+        self.pad_refused = False
         try:
             return "ok", self._apply(op)
         except Expected as e:
@@ -364,6 +365,12 @@ class RefWorld:
                     partner_b[id(b)] = key[0]
             if a is not None and b is not None and (a.kind != b.kind):
                 raise Expected("value")
+            if kind == "time" and (a is None or b is None):
+                x = a if a is not None else b
+                if (n if a is None else m) > 0 and x.tag.split("/")[-1] in ("gps_ws", "gps_seconds"):
+                    # the empty epoch has no value in the formats of the GPS scale: padding is refused
+                    self.pad_refused = True
+                    raise Expected("value")
             ra = a.rows if a is not None else [empty_row(kind, cols)] * n
             rb = b.rows if b is not None else [empty_row(kind, cols)] * m
             if factors:
